@@ -544,7 +544,7 @@ pub trait Transport: 'static {
     type DI: Interface<Error = Self::E> + 'static;
     type E: Classify;
     /// keeps a heap buffer alive for SPI
-    type Keep;
+    type Keep: 'static;
     /// `via_from`: build the parallel bus through `From<(pins..)>` instead of `new`
     fn make(tl: &Tl, spi_buf: usize, via_from: bool) -> (Self::DI, Self::Keep);
     /// dispatch on `cfg.model` for an existing interface of this transport
@@ -902,6 +902,10 @@ where
 pub struct Built {
     pub init: InitResult,
     pub rig: Option<Box<dyn Rig>>,
+    /// when init failed: whatever kept the interface's buffer alive. It must be freed only after
+    /// the function that received the interface *as an argument* has returned (the `&'static mut`
+    /// inside the interface is protected for the duration of that call)
+    pub keep_alive: Option<Box<dyn std::any::Any>>,
 }
 
 fn conv_init<E: Classify>(e: InitError<E, Fault>) -> InitResult {
@@ -991,18 +995,19 @@ where
             Ok(Ok(display)) => Built {
                 init: InitResult::Ok,
                 rig: Some(Box::new(RigImpl::<T, M, Pin> { display, _keep: keep, delay, pulled: 0, pull_limit: u64::MAX })),
+                keep_alive: None,
             },
             Ok(Err(e)) => {
-                // the interface was consumed by the failed builder; the SPI buffer may go
-                Built { init: conv_init(e), rig: None }
+                // the interface was consumed by the failed builder; its buffer is freed by the caller
+                Built { init: conv_init(e), rig: None, keep_alive: Some(Box::new(keep)) }
             }
             Err(CallResult::Panic { msg, loc }) => {
                 std::mem::forget(keep);
-                Built { init: InitResult::Panic { msg, loc }, rig: None }
+                Built { init: InitResult::Panic { msg, loc }, rig: None, keep_alive: None }
             }
             Err(CallResult::Budget { ops }) => {
                 std::mem::forget(keep);
-                Built { init: InitResult::Budget { ops }, rig: None }
+                Built { init: InitResult::Budget { ops }, rig: None, keep_alive: None }
             }
             Err(_) => unreachable!(),
         }
@@ -1011,15 +1016,16 @@ where
             Ok(Ok(display)) => Built {
                 init: InitResult::Ok,
                 rig: Some(Box::new(RigImpl::<T, M, NoResetPin> { display, _keep: keep, delay, pulled: 0, pull_limit: u64::MAX })),
+                keep_alive: None,
             },
-            Ok(Err(e)) => Built { init: conv_init_norst(e), rig: None },
+            Ok(Err(e)) => Built { init: conv_init_norst(e), rig: None, keep_alive: Some(Box::new(keep)) },
             Err(CallResult::Panic { msg, loc }) => {
                 std::mem::forget(keep);
-                Built { init: InitResult::Panic { msg, loc }, rig: None }
+                Built { init: InitResult::Panic { msg, loc }, rig: None, keep_alive: None }
             }
             Err(CallResult::Budget { ops }) => {
                 std::mem::forget(keep);
-                Built { init: InitResult::Budget { ops }, rig: None }
+                Built { init: InitResult::Budget { ops }, rig: None, keep_alive: None }
             }
             Err(_) => unreachable!(),
         }
